@@ -22,6 +22,7 @@ from oslo_utils import timeutils
 import webob
 
 from placement.db import constants as db_const
+from placement import db_api
 from placement import errors
 from placement import exception
 from placement import microversion
@@ -277,14 +278,17 @@ def get_inventories(req):
     context = req.environ['placement.context']
     context.can(policies.LIST)
     uuid = util.wsgi_path_item(req.environ, 'uuid')
-    try:
-        rp = rp_obj.ResourceProvider.get_by_uuid(context, uuid)
-    except exception.NotFound as exc:
-        raise webob.exc.HTTPNotFound(
-            "No resource provider with uuid %(uuid)s found : %(error)s" %
-            {'uuid': uuid, 'error': exc})
+    # Read the provider and its inventories in one transaction, so that the
+    # generation reported belongs to what is reported with it.
+    with db_api.placement_context_manager.reader.using(context):
+        try:
+            rp = rp_obj.ResourceProvider.get_by_uuid(context, uuid)
+        except exception.NotFound as exc:
+            raise webob.exc.HTTPNotFound(
+                "No resource provider with uuid %(uuid)s found : %(error)s" %
+                {'uuid': uuid, 'error': exc})
 
-    inv_list = inv_obj.get_all_by_resource_provider(context, rp)
+        inv_list = inv_obj.get_all_by_resource_provider(context, rp)
 
     return _send_inventories(req, rp, inv_list)
 
@@ -301,14 +305,17 @@ def get_inventory(req):
     context.can(policies.SHOW)
     uuid = util.wsgi_path_item(req.environ, 'uuid')
     resource_class = util.wsgi_path_item(req.environ, 'resource_class')
-    try:
-        rp = rp_obj.ResourceProvider.get_by_uuid(context, uuid)
-    except exception.NotFound as exc:
-        raise webob.exc.HTTPNotFound(
-            "No resource provider with uuid %(uuid)s found : %(error)s" %
-            {'uuid': uuid, 'error': exc})
+    # Read the provider and its inventories in one transaction, so that the
+    # generation reported belongs to what is reported with it.
+    with db_api.placement_context_manager.reader.using(context):
+        try:
+            rp = rp_obj.ResourceProvider.get_by_uuid(context, uuid)
+        except exception.NotFound as exc:
+            raise webob.exc.HTTPNotFound(
+                "No resource provider with uuid %(uuid)s found : %(error)s" %
+                {'uuid': uuid, 'error': exc})
 
-    inv_list = inv_obj.get_all_by_resource_provider(context, rp)
+        inv_list = inv_obj.get_all_by_resource_provider(context, rp)
     inventory = inv_obj.find(inv_list, resource_class)
 
     if not inventory:
